@@ -55,6 +55,15 @@ def RendersTo (db : DB) (k : Key5) (row : Row) : Prop :=
   0 ≤ k.alg ∧ db.alg.index[k.alg.toNat]? = some row.alg ∧
   0 ≤ k.sv ∧ db.state.index[k.sv.toNat]? = some row.sv
 
+/-- the column a facet request asks for: the first `[]` among the four name parameters, with the
+    catalogue whose names are listed -/
+def facetColumn (db : DB) (p : Params) : Option ((Key → Int) × Cat) :=
+  if isEmptyList p.targets then some (Key.tgt, db.target)
+  else if isEmptyList p.tasks then some (Key.task, db.task)
+  else if isEmptyList p.algs then some (Key.alg, db.alg)
+  else if isEmptyList p.svs then some (Key.sv, db.state)
+  else none
+
 /-- the two lists have the same length and are related position by position -/
 def Pointwise {α β : Type} (R : α → β → Prop) : List α → List β → Prop
   | [], [] => True
